@@ -469,6 +469,12 @@ class Source(_Component):
         if self._params["vo"] == 0.0 or _get_lopt(pstate, "off", 0, False):
             return 0.0, STATE_OFF
         vo = self._params["vo"] - self._params["rs"] * io
+        if np.sign(vo) != np.sign(self._params["vo"]):
+            raise ValueError(
+                "Unstable system: Source component '{}' has zero output voltage".format(
+                    self._params["name"]
+                )
+            )
         return vo, STATE_DEFAULT
 
     def _solv_pwr_loss(self, vi, vo, ii, io, ta, phase, phase_conf={}, pstate={}):
